@@ -292,6 +292,21 @@ type cidFacts struct {
 	subOverrun bool  // an option 82 at a scanned offset whose first sub-option (code 1) runs past the option
 	pseudo     bool  // the byte 82 at a scanned offset that is not an option code
 	windows    [][]byte
+	pseudoWin  [][]byte // the windows among them that start at such a pseudo option 82
+}
+
+// keyFromPseudo: is cKey the zero-padded key of the bytes a fixed-position reader takes at a pseudo option 82?
+// KF-C06-34 records exactly that derivation; a disagreement on a request that merely CONTAINS the pattern, with the
+// program's key coming from somewhere else, has another cause and keeps the unlisted fallback signature.
+func (f cidFacts) keyFromPseudo(cKey []byte) bool {
+	for _, w := range f.pseudoWin {
+		var k [bngebpf.CircuitIDKeyLen]byte
+		copy(k[:], w)
+		if bytes.Equal(k[:], cKey) {
+			return true
+		}
+	}
+	return false
 }
 
 func readFacts(o []byte) cidFacts {
@@ -315,6 +330,9 @@ func readFacts(o []byte) cidFacts {
 		// what a fixed-position reader would take for the circuit-id here
 		if d := int(o[p+3]); o[p+2] == 1 && d >= 1 && p+4+d <= len(o) {
 			f.windows = append(f.windows, append([]byte{}, o[p+4:p+4+min(d, bngebpf.CircuitIDKeyLen)]...))
+			if !isOpt[p] {
+				f.pseudoWin = append(f.pseudoWin, f.windows[len(f.windows)-1])
+			}
 		}
 		if isOpt[p] && o[p+2] == 1 && int(o[p+3])+2 > int(o[p+1]) {
 			f.subOverrun = true
@@ -339,7 +357,7 @@ func (f cidFacts) classify(goParsed bool, goCid, cKey []byte, fallback string) s
 		return "suboption-overruns-option82"
 	case !goParsed || !f.walkOK:
 		return "unparseable-options"
-	case f.pseudo:
+	case f.pseudo && f.keyFromPseudo(cKey):
 		return "option82-pattern-in-option-payload"
 	}
 	return fallback
